@@ -302,7 +302,7 @@ func rulesC12(c *Ctx) {
 			sa := c.FnObj(pM, "", "streamableAccepts")
 			jsonOK, streamOK := f.VarFromCall(sa, 0), f.VarFromCall(sa, 1)
 			c.Need(jsonOK != nil && streamOK != nil, name+": jsonOK, streamOK := streamableAccepts(...)")
-			post := []leafMatcher{cmpPath("Request.Method", token.NEQ, triFalse), cmpPath("Request.Method", token.EQL, triFalse), objIs(compatFlagVar(f), triFalse)}
+			post := []leafMatcher{methodIs("POST"), objIs(compatFlagVar(f), triFalse)}
 			c.gateScenario(f, name+":wrong-content-type", anyOf(append(post, debugFlagOff(), cmpIs("baseMediaType", token.NEQ, triTrue))...)(f), tgt, []int64{415}, "POST Content-Type is not application/json")
 			c.gateScenario(f, name+":accept-lacks-json", anyOf(append(post, debugFlagOff(), cmpIs("baseMediaType", token.NEQ, triFalse), objIs(jsonOK, triFalse))...)(f), tgt, []int64{400}, "Accept does not admit application/json")
 			c.gateScenario(f, name+":accept-lacks-event-stream", anyOf(append(post, debugFlagOff(), cmpIs("baseMediaType", token.NEQ, triFalse), objIs(jsonOK, triTrue), objIs(streamOK, triFalse))...)(f), tgt, []int64{400}, "Accept does not admit text/event-stream")
@@ -1167,6 +1167,21 @@ func cmpPath(path string, op token.Token, v tri) leafMatcher {
 			return v, true
 		}
 		return 0, false
+	}
+}
+
+// methodIs: the request's method is name: `req.Method == K` holds exactly for K == name (and `!=` for the others).
+func methodIs(name string) leafMatcher {
+	return func(f *Func, e ast.Expr) (tri, bool) {
+		x, y, op, ok := binaryCmp(e)
+		if !ok || (op != token.EQL && op != token.NEQ) || f.FieldPath(f.valueOf(x)) != "Request.Method" {
+			return 0, false
+		}
+		k, isC := f.ConstString(y)
+		if !isC {
+			return 0, false
+		}
+		return boolTri((k == name) == (op == token.EQL)), true
 	}
 }
 
